@@ -16,7 +16,7 @@ def run(chk, replay=None):
         import data_common
         return data_common.run_data(chk, ['array'], replay=replay)
     t = 't' if chk.thorough else 'q'
-    cfgs = ['c08%s_%s' % (x, t) for x in 'abcdef']
+    cfgs = ['c08%s_%s' % (x, t) for x in 'abcdefg']
     sims = [('all', 3000 if chk.thorough else 200, 30)]
     judge = lambda r: r['step']['res'] == 'reject' and not any(s['a'] == 'Open' and s['args']['n'] == 'ro' for s in r['pre'])
     chk.rule = ('one case per rejected transition (self-loop) in every reachable state of 3 bounded universes (BFS exhaustive) plus rejected '
